@@ -40,6 +40,15 @@ var reentCases = []struct{ name, defs, probe, want, trace string }{
 	{"around-chain-with-recursion-in-the-middle",
 		"(defgeneric @g (x)) (defmethod @g :around ((x integer)) (tr 'ai) (list 'i (call-next-method x))) (defmethod @g :around ((x real)) (tr 'ar) (list 'r (if (< 0 x) (@g (- x 1)) 'end) (call-next-method x))) (defmethod @g :around ((x t)) (tr 'at) (list 't (call-next-method x))) (defmethod @g ((x t)) (tr 'p) 'p)",
 		"(@g 1)", "(i (r (i (r end (t p))) (t p)))", "ai,ar,ai,ar,at,p,at,p"},
+	// the method table is changed by a daemon of the running call: the running call finishes with the methods it
+	// started with, the next call sees the change (the only applicable specializer tuple, so nothing else hides a
+	// shared table entry)
+	{"before-daemon-redefines-the-primary-of-the-running-call",
+		"(defgeneric @g (x)) (defmethod @g ((x integer)) (tr 'old) 'old) (defmethod @g :before ((x integer)) (tr 'b) (defmethod @g ((x integer)) (tr 'new) 'new))",
+		"(list (@g 1) (@g 1))", "(old new)", "b,old,b,new"},
+	{"before-daemon-removes-the-after-daemon-of-the-running-call",
+		"(defgeneric @g (x y)) (defmethod @g ((x integer) (y integer)) (tr 'p) 'p) (defmethod @g :after ((x integer) (y integer)) (tr 'a)) (defmethod @g :before ((x integer) (y integer)) (tr 'b) (let ((m (find-method #'@g '(:after) '(integer integer) nil))) (when m (remove-method #'@g m))))",
+		"(list (@g 1 2) (@g 1 2))", "(p p)", "b,p,a,b,p"},
 	{"two-arguments-recursion-swaps-classes",
 		"(defgeneric @g (a b)) (defmethod @g ((a integer) (b string)) (tr 'is) (list 'is (@g b a))) (defmethod @g ((a string) (b integer)) (tr 'si) 'si) (defmethod @g :around ((a t) (b t)) (tr 'ar) (list 'ar (call-next-method a b)))",
 		"(@g 1 \"s\")", "(ar (is (ar si)))", "ar,is,ar,si"},
@@ -69,7 +78,11 @@ func execReent(spec string) (res engine.Result) {
 		res.Fail("reentrant case="+c.name+" kind=definition-error:"+err.Class, ren(c.defs)+" => "+err.String())
 		return
 	}
-	for rep := 1; rep <= 2; rep++ { // the second call runs on the warm dispatch cache
+	reps := 2
+	if strings.HasPrefix(c.name, "before-daemon-re") {
+		reps = 1 // the probe itself changes the method table
+	}
+	for rep := 1; rep <= reps; rep++ { // the second call runs on the warm dispatch cache
 		lisp.ResetTrace()
 		v, err := lisp.Eval(ren(c.probe))
 		var tr []string
